@@ -9,5 +9,4 @@ CONSTANTS
   Bugs <- BugsAsIs
 INVARIANT TypeOK
 INVARIANT SlotsAgree
-VIEW View
 CHECK_DEADLOCK FALSE
